@@ -666,7 +666,9 @@ func (w *World) afterAction(base string) {
 		w.Ghost.ReadySteps = nil
 	}
 	R := 0
-	if wl := w.WL.Project(w); wl["exists"] == true {
+	if rp, ok := w.WL.(interface{ ReplicasOf(*World) int }); ok {
+		R = rp.ReplicasOf(w)
+	} else if wl := w.WL.Project(w); wl["exists"] == true {
 		R, _ = wl["R"].(int)
 	}
 	if rk := fmt.Sprintf("%s|%d", canaryRevisionOf(ro), R); rk != w.Ghost.ReadyReplKey {
